@@ -473,17 +473,23 @@ func TestC13(t *testing.T) {
 		}
 		return
 	}
-	rapid.Check(t, func(rt *rapid.T) {
-		c := rapid.Custom(genWMCase).Draw(rt, "case")
-		cj := vlib.JSON(c)
-		rec.Begin(cj)
-		msg, nt, classes := runWM(c)
-		rec.End(cj, nt, classes...)
-		if msg != "" {
-			wmReport(rec, msg, cj, rt.Fatalf)
-		}
-	})
+	rapid.Check(t, propC13)
 }
+
+func propC13(rt *rapid.T) {
+	rec := vlib.For("C13", "TestC13")
+	c := rapid.Custom(genWMCase).Draw(rt, "case")
+	cj := vlib.JSON(c)
+	rec.Begin(cj)
+	msg, nt, classes := runWM(c)
+	rec.End(cj, nt, classes...)
+	if msg != "" {
+		wmReport(rec, msg, cj, rt.Fatalf)
+	}
+}
+
+// FuzzC13 hands the same property to Go's coverage-guided fuzzer (thorough tier only).
+func FuzzC13(f *testing.F) { f.Fuzz(rapid.MakeFuzz(propC13)) }
 
 // ---- concurrent half: the mark used the way the oracle uses it ------------
 
